@@ -182,31 +182,30 @@ pub fn check(case: &Case, prep: &Prepared, run: &Run) -> (Vec<Violation>, Facts)
     let all_proven = sim.children.iter().all(|c| c.delivered_proven) && sim.children.len() == reference.len();
     facts.all_proven = all_proven;
     if returned {
-        match verdicts.as_slice() {
-            [] => out.push(v("I5-no-verdict", "no '> Success!' / '> Failure!' line was printed".into())),
-            [(i, success)] => {
-                facts.verdict = Some(*success);
-                let last_marker = lines.iter().rposition(|l| l.starts_with("> ")).unwrap_or(*i);
-                if last_marker != *i {
-                    out.push(v("I5-verdict-not-last", format!("a '> ' line follows the verdict: {:?}", lines[last_marker])));
-                }
-                // an execution in which anthem killed a prover (after its limit) has no stated expectation for that prover
-                let any_killed = sim.children.iter().any(|c| c.killed);
-                if *success != all_proven && !any_killed {
-                    let bad: Vec<String> = sim
-                        .children
-                        .iter()
-                        .filter(|c| !c.delivered_proven)
-                        .map(|c| format!("#{}:{}", c.ordinal, c.fault_fired.clone().or(c.outcome_class.clone()).unwrap_or_default()))
-                        .collect();
-                    if *success {
-                        out.push(v("I5-false-success", format!("'> Success!' although not every prover run printed SZS status Theorem: {}", bad.join(" "))));
-                    } else {
-                        out.push(v("I5-false-failure", format!("'> Failure!' although all {} prover runs printed SZS status Theorem", sim.children.len())));
-                    }
+        // The statement fixes the verdict, not the layout around it: further lines may follow, and a verdict may be
+        // repeated (a summary block, say) as long as all verdict lines agree.
+        if verdicts.is_empty() {
+            out.push(v("I5-no-verdict", "no '> Success!' / '> Failure!' line was printed".into()));
+        } else if verdicts.iter().any(|(_, s)| *s != verdicts[0].1) {
+            out.push(v("I5-contradictory-verdicts", format!("{} verdict lines that do not agree", verdicts.len())));
+        } else {
+            let success = verdicts[0].1;
+            facts.verdict = Some(success);
+            // an execution in which anthem killed a prover (after its limit) has no stated expectation for that prover
+            let any_killed = sim.children.iter().any(|c| c.killed);
+            if success != all_proven && !any_killed {
+                let bad: Vec<String> = sim
+                    .children
+                    .iter()
+                    .filter(|c| !c.delivered_proven)
+                    .map(|c| format!("#{}:{}", c.ordinal, c.fault_fired.clone().or(c.outcome_class.clone()).unwrap_or_default()))
+                    .collect();
+                if success {
+                    out.push(v("I5-false-success", format!("'> Success!' although not every prover run printed SZS status Theorem: {}", bad.join(" "))));
+                } else {
+                    out.push(v("I5-false-failure", format!("'> Failure!' although all {} prover runs printed SZS status Theorem", sim.children.len())));
                 }
             }
-            many => out.push(v("I5-many-verdicts", format!("{} verdict lines", many.len()))),
         }
     }
 
